@@ -29,7 +29,7 @@ CONSTANTS NArb,      \* worker arbiters 1..NArb (0 is the system arbiter)
           Codes,     \* exit codes
           AllowBusy, \* tasks may block their thread for a while
           FifoLocalQueue, StopEndsLoop, FirstCodeKept, ExitStopsAll, RunOnArbiterThread,
-          StopBeforeCode, DeregOwnId, ExecuteOnce, SendFailsWhenGone, JoinWaitsExit,
+          StopBeforeCode, DeregOwnId, RegBeforeReady, ExecuteOnce, SendFailsWhenGone, JoinWaitsExit,
           RunErrsOnNonZero, BlockOnExact
 
 VARIABLES thr,      \* client thread -> [pc, cmd, ok]
@@ -65,7 +65,7 @@ Init ==
   /\ ctrl = [alive |-> TRUE, registry |-> 0..PreCreated, codeSent |-> FALSE, half |-> FALSE]
   /\ oneshot = -1 /\ runst = "running"
   /\ arb = [a \in Arbs |-> [loop |-> IF a <= PreCreated THEN "run" ELSE "none", cmdq |-> <<>>, localq |-> <<>>,
-                            busy |-> FALSE, stopping |-> FALSE]]
+                            busy |-> FALSE, stopping |-> FALSE, regPending |-> FALSE]]
   /\ ntask = [a \in Arbs |-> 0] /\ ncmd = 0 /\ nsys = 0
   /\ h = H_BlockOn([HInit EXCEPT !.clients = Thr \cup {SysTid}, !.sysTid = SysTid, !.sysId = TheSysId,
                                  !.created = 1..PreCreated],
@@ -74,7 +74,7 @@ Init ==
 
 RxAlive(a) == arb[a].loop = "run"
 SysThreadFree == runst = "running" /\ ~arb[0].busy
-CanStep(a) == RxAlive(a) /\ ~arb[a].busy /\ (a = 0 => runst = "running")
+CanStep(a) == RxAlive(a) /\ ~arb[a].busy /\ ~arb[a].regPending /\ (a = 0 => runst = "running")
 
 (* ---------------------------- clients ---------------------------- *)
 Bodies(kind) == IF kind = "spawn"
@@ -187,13 +187,21 @@ CallAtomic(t) ==
 NewArbiter ==
   \E a \in Workers :
     /\ arb[a].loop = "none" /\ \A b \in Workers : b < a => arb[b].loop # "none"
-    /\ arb' = [arb EXCEPT ![a].loop = "run"]
-    /\ sysq' = IF ctrl.alive THEN Append(sysq, [k |-> "reg", v |-> a]) ELSE sysq
+    /\ arb' = [arb EXCEPT ![a].loop = "run", ![a].regPending = ~RegBeforeReady]
+    /\ sysq' = IF ctrl.alive /\ RegBeforeReady THEN Append(sysq, [k |-> "reg", v |-> a]) ELSE sysq
     /\ h' = H_ArbNew(h, a)
     /\ act' = A("ArbNew", a, 0)
     /\ UNCHANGED <<thr, tasks, ctrl, oneshot, runst, ntask, ncmd, nsys>>
 
 (* ---------------------------- arbiter threads ---------------------------- *)
+\* wrong design only: the new thread reports "ready" first and registers afterwards
+ArbLateRegister(a) ==
+  /\ arb[a].regPending
+  /\ arb' = [arb EXCEPT ![a].regPending = FALSE]
+  /\ sysq' = IF ctrl.alive THEN Append(sysq, [k |-> "reg", v |-> a]) ELSE sysq
+  /\ act' = A("ArbLateRegister", a, 0)
+  /\ UNCHANGED <<thr, tasks, ctrl, oneshot, runst, ntask, ncmd, nsys, h>>
+
 EndLoop(a) == [arb EXCEPT ![a].loop = IF a = 0 THEN "exited" ELSE "ended", ![a].cmdq = <<>>, ![a].localq = <<>>]
 
 ArbDequeue(a) ==
@@ -302,7 +310,7 @@ RunReturn ==
   /\ UNCHANGED <<thr, tasks, oneshot, ntask, ncmd, nsys>>
 
 Internal == \/ \E t \in Thr : Enq(t) \/ SendEnd(t)
-            \/ \E a \in Arbs : ArbDequeue(a) \/ ArbDrainEnd(a) \/ ArbStartTask(a) \/ ArbYield(a) \/ ArbDeregister(a)
+            \/ \E a \in Arbs : ArbLateRegister(a) \/ ArbDequeue(a) \/ ArbDrainEnd(a) \/ ArbStartTask(a) \/ ArbYield(a) \/ ArbDeregister(a)
             \/ CtrlStep \/ RunReturn
 Next == \/ Internal
         \/ \E t \in Thr : Issue(t) \/ CallAtomic(t)
@@ -312,7 +320,7 @@ Next == \/ Internal
 Spec == Init /\ [][Next]_vars
 
 Fairness == /\ \A t \in Thr : WF_vars(Enq(t)) /\ WF_vars(SendEnd(t))
-            /\ \A a \in Arbs : /\ WF_vars(ArbDequeue(a)) /\ WF_vars(ArbDrainEnd(a)) /\ WF_vars(ArbStartTask(a))
+            /\ \A a \in Arbs : /\ WF_vars(ArbLateRegister(a)) /\ WF_vars(ArbDequeue(a)) /\ WF_vars(ArbDrainEnd(a)) /\ WF_vars(ArbStartTask(a))
                                /\ WF_vars(ArbYield(a)) /\ WF_vars(ArbDeregister(a))
             /\ \A a \in Workers : WF_vars(JoinReturn(a))
             /\ WF_vars(CtrlStep) /\ WF_vars(RunReturn)
@@ -330,7 +338,7 @@ RegPending(a) == \E i \in 1..Len(sysq) : sysq[i].k = "reg" /\ sysq[i].v = a
 C09_RegistryExact ==
   ctrl.alive => \A a \in Workers :
      /\ (arb[a].loop = "exited" /\ ~DeregPending(a)) => a \notin ctrl.registry
-     /\ (arb[a].loop = "run" /\ ~RegPending(a) /\ a \in h.created) => a \in ctrl.registry
+     /\ (arb[a].loop = "run" /\ ~RegPending(a) /\ ~arb[a].regPending /\ a \in h.created) => a \in ctrl.registry
 
 \* liveness (checked under FairSpec on the smallest configuration)
 L_StopLeadsToRunReturn == (h.sysStarted > 0) ~> (runst = "returned")
